@@ -256,10 +256,10 @@ func av1Corpus(c *corr.Ctx) {
 		short = append(short, &rtp.Packet{Header: rtp.Header{Version: 2, SequenceNumber: uint16(i)}, Payload: append([]byte{0x50}, fill(30, byte(i))...)})
 	}
 	cu.HostileStream(c, Av1, inst, short, true, "av1-corpus-zy-short", "Z=0,Y=1 repeated")
-	for i := 0; i < 150; i++ {
-		long = append(long, &rtp.Packet{Header: rtp.Header{Version: 2, SequenceNumber: uint16(i)}, Payload: append([]byte{0x50}, fill(60000, byte(i))...)})
+	for i := 0; i < 700; i++ {
+		long = append(long, &rtp.Packet{Header: rtp.Header{Version: 2, SequenceNumber: uint16(i)}, Payload: append([]byte{0x50}, fill(10000, byte(i))...)})
 	}
-	cu.HostileStream(c, Av1, inst, long, false, "av1-corpus-zy-long", "Z=0,Y=1 repeated, 150 x 60000 bytes")
+	cu.HostileStream(c, Av1, inst, long, false, "av1-corpus-zy-long", "Z=0,Y=1 repeated, 700 x 10000 bytes")
 }
 
 // StaleInput is the replayable description of an av1StaleCase.
